@@ -2,7 +2,8 @@
     Model/Backward.v: the depth-first search with execution of src/backward/search.rs (after the repairs
     692df85, 047f79f, ab15463), iterative deepening, the root and sub-goal candidate selection, the condition
     evaluator and rule executor on Horn-style rules, and the specification (forward closure, bounded levels). *)
-From RRE Require Import Base.Sx Base.Float Base.Num Model.ExprShape Model.Forward Model.ForwardSpec Model.Backward Proofs.BackwardProofs Proofs.BackwardClosureProofs.
+From RRE Require Import Base.Sx Base.Float Base.Num Model.ExprShape Model.Forward Model.ForwardSpec Model.Backward Proofs.BackwardProofs Proofs.BackwardClosureProofs Proofs.BackwardCompleteProofs.
+From Coq Require Import Lia.
 Open Scope Z_scope.
 
 (** Soundness: whenever the depth-first search reports a goal provable, the goal comparison is true in the
@@ -39,6 +40,34 @@ Theorem C09_proven_goal_in_closure : forall rules max_depth D, horn rules -> clo
 Proof. exact dfs_goal_in_closed. Qed.
 Print Assumptions C09_proven_goal_in_closure.
 
+(** BOUNDED COMPLETENESS of the default depth-first strategy, for every Horn instance of any size: rules with
+    conjunctive conditions ([conj]) made of positive comparisons ([horn]) against boolean / string / null literals
+    ([gnonnum]; nesting of && at most 62, so that the model's recursion fuel provably suffices), over facts and rule
+    conclusions that give every field a single value (the premise on f0 ++ all conclusions), scalar values.
+    If the goal holds at level h <= max_depth of the bounded forward derivation ([level h]: h rounds of firing every
+    rule whose conditions hold) - i.e. it has a derivation of height at most max_depth - the search reports it provable,
+    whatever decoy candidates, dead ends, shared sub-goals and cycles the rule set contains.
+    Partial w.r.t. the monitor, which also covers integer comparisons in rule conditions (the reparsing of integer
+    literals through f64 is not covered by this theorem). *)
+Theorem C09_bounded_completeness_partial : forall rules max_depth f0,
+  flat f0 -> horn rules ->
+  (forall k v v', In (k, v) (f0 ++ flat_map br_sets rules) -> In (k, v') (f0 ++ flat_map br_sets rules) -> v = v') ->
+  (forall r, In r rules -> conj (br_cond r) = true) ->
+  (forall r, In r rules -> gnonnum (br_cond r) = true) ->
+  (forall r, In r rules -> (gdepth (br_cond r) <= 62)%nat) ->
+  forall goal h, positive_op (b_op goal) = true -> Z.of_nat h <= max_depth ->
+    goal_holds (level h rules f0) goal = true -> fst (dfs rules max_depth goal f0) = true.
+Proof. exact dfs_bounded_complete. Qed.
+Print Assumptions C09_bounded_completeness_partial.
+
+(** The search never loses a fact it was given: whatever it hands back extends its input (single-valued Horn instances). *)
+Theorem C09_search_extends_facts : forall rules max_depth f0, horn rules ->
+  (forall k v v', In (k, v) (f0 ++ flat_map br_sets rules) -> In (k, v') (f0 ++ flat_map br_sets rules) -> v = v') ->
+  forall fuel goal cands depth f b f', (forall r, In r cands -> In r rules) -> covers (f0 ++ flat_map br_sets rules) f ->
+    search rules max_depth fuel goal cands depth f = (b, f') -> forall k v, fget f k = Some v -> fget f' k = Some v.
+Proof. intros rules md f0 Hh Hsv fuel. exact (proj1 (search_prove_ext rules md f0 Hh Hsv fuel)). Qed.
+Print Assumptions C09_search_extends_facts.
+
 (** non-vacuity: a sub-goal is proven, the rule then concludes the wrong value - not provable (this was
     reported provable before repair 692df85); with the right value it is provable through the chain *)
 Definition ex9_f0 : str := [70; 48].  Definition ex9_f1 : str := [70; 49].  Definition ex9_f3 : str := [70; 51].
@@ -51,3 +80,20 @@ Example C09_example :
   /\ fst (dfs (ex9_rules 8) 3 ex9_goal [(ex9_f1, VBool true)]) = true
   /\ fst (dfs (ex9_rules 8) 0 ex9_goal [(ex9_f1, VBool true)]) = false.
 Proof. vm_compute. repeat split. Qed.
+
+(** the hypotheses of the completeness theorem are satisfiable: the chain above, height 2, found with max_depth 2 *)
+Example C09_completeness_example :
+  let rules := ex9_rules 8 in let f0 := [(ex9_f1, VBool true)] in
+  flat f0 /\ horn rules
+  /\ (forall k v v', In (k, v) (f0 ++ flat_map br_sets rules) -> In (k, v') (f0 ++ flat_map br_sets rules) -> v = v')
+  /\ (forall r, In r rules -> conj (br_cond r) = true /\ gnonnum (br_cond r) = true /\ (gdepth (br_cond r) <= 62)%nat)
+  /\ goal_holds (level 2 rules f0) ex9_goal = true.
+Proof.
+  cbv zeta. split; [|split; [|split; [|split]]].
+  - intros k v H. cbn [fget] in H. destruct (str_eqb ex9_f1 k); [injection H as <-; exact I|discriminate].
+  - intros r [<-|[<-|[]]]; (split; [reflexivity|intros kv [<-|[]]; exact I]).
+  - intros k v v' H1 H2. cbn in H1, H2.
+    destruct H1 as [H1|[H1|[H1|[]]]]; destruct H2 as [H2|[H2|[H2|[]]]]; inversion H1; inversion H2; subst; try reflexivity; discriminate.
+  - intros r [<-|[<-|[]]]; (split; [reflexivity|split; [reflexivity|cbn; lia]]).
+  - vm_compute. reflexivity.
+Qed.
